@@ -238,6 +238,10 @@ class InspectLoop(LoopSpec):
 
 
 class Inspect(Acc):
+    # C19: 'mosromgr inspect' never aborts on a classifiable message - the CLI proof uses the caller-facing view
+    # ("prints, does not raise"), so the never-raises obligations of the bodies carry C19 as well
+    props = ('C20', 'C19')
+
     def __init__(self, cls_name, base, loops=None, extra_shape=None, mentions=None):
         Acc.__init__(self, cls_name, 'inspect', base, 'inspect')
         self.loops = loops or {}
@@ -273,7 +277,7 @@ class Inspect(Acc):
         return [('C20.%s.inspect_prints_without_raising' % self.cls_name, z3.BoolVal(len(ex.st.out) > 0))]
 
     def raises(self, cx, ex):
-        return [('C20+C12.%s.inspect_never_raises[%s]' % (self.cls_name, ex.value.name()), z3.BoolVal(False))]
+        return [('C20+C12+C19.%s.inspect_never_raises[%s]' % (self.cls_name, ex.value.name()), z3.BoolVal(False))]
 
 
 def regi(cls_name, base, **kw):
